@@ -469,8 +469,11 @@ func c13Tour(cl *redisemu.VClient, step *string) (bad string) {
 		k := e.S
 		switch do("TYPE", k).S {
 		case "string":
-			do("GET", k)
-			do("STRLEN", k)
+			// (a value of hundreds of megabytes - SETBIT k 2147483648 - is not read back: several copies of it
+			// would decide the fate of the worker process, not the emulator)
+			if n := do("STRLEN", k); n.I <= 1<<20 {
+				do("GET", k)
+			}
 		case "list":
 			do("LRANGE", k, "0", "-1")
 			do("LLEN", k)
